@@ -239,10 +239,11 @@ def decide_and_report(prop, tier, seed, mod, agg):
             viol = agg["status"].get(name + ":violated", 0)
             inc = agg["status"].get(name + ":inconclusive", 0)
             info.update({"held": held, "violated": viol, "inconclusive": inc})
-            info["status"] = "violated" if viol else ("held" if held else "inconclusive")
+            unk = sum(1 for v, _u in unknown_cases if v["lane"] == name)
+            info["status"] = "violated" if unk else ("held (known findings only)" if viol else ("held" if held else "inconclusive"))
     # a non-optional lane that decided nothing makes the check inconclusive
     for name, info in agg["lanes"].items():
-        if info["status"] == "inconclusive" and not info["optional"]:
+        if info["status"].startswith("inconclusive") and not info["optional"]:
             missed.append("lane %s decided nothing" % name)
     if agg["shard_failures"] and not unknown_cases:
         hard = [s for s in agg["shard_failures"] if s["why"] != "harness-error" and not agg["lanes"].get(s["lane"], {}).get("optional")]
